@@ -1101,10 +1101,23 @@ func genCase(rng *rand.Rand) (cliCase, *bondmachine.Bondmachine, error) {
 	// input stimuli: distinct (tick, object) pairs
 	usedSet := map[string]bool{}
 	perObj := map[string]bool{}
-	if rng.IntN(3) == 0 {
-		o := pick(rng, ins)
-		perObj[o] = true
-		add(fmt.Sprintf("relative:%d:set:%s:%s", 2+rng.IntN(9), o, valueLit(rng, ns.Rsize)))
+	// periodic sets: up to three, on distinct objects, periods from a small pool so that several rules
+	// share a period and a period coincides with the tick of an absolute set on another object
+	var periods []int
+	if rng.IntN(2) == 0 {
+		for k := 0; k < 1+rng.IntN(3); k++ {
+			o := pick(rng, ins)
+			if rng.IntN(3) == 0 {
+				o = pick(rng, all)
+			}
+			if perObj[o] {
+				continue
+			}
+			perObj[o] = true
+			p := []int{2, 3, 4, 4, 5, 7, 10}[rng.IntN(7)]
+			periods = append(periods, p)
+			add(fmt.Sprintf("relative:%d:set:%s:%s", p, o, valueLit(rng, ns.Rsize)))
+		}
 	}
 	nset := 1 + rng.IntN(6)
 	for k := 0; k < nset; k++ {
@@ -1113,6 +1126,9 @@ func genCase(rng *rand.Rand) (cliCase, *bondmachine.Bondmachine, error) {
 			o = pick(rng, all)
 		}
 		t := rng.IntN(c.Ticks)
+		if len(periods) > 0 && rng.IntN(2) == 0 {
+			t = periods[rng.IntN(len(periods))]
+		}
 		key := fmt.Sprintf("%d/%s", t, o)
 		if usedSet[key] || perObj[o] {
 			continue
